@@ -436,6 +436,50 @@ for es in EDGE_SETS:
 if created == 0 or deleted == 0 or ndeleted == 0:
     ck.inconclusive.append(f'vacuous: create_edge succeeded on {created} paths, delete_edge on {deleted}, delete_node on {ndeleted}')
 
+# ------------------------------------------------------------------ S6: the batch path (its own copy of the edge-creation code)
+ck.declare('S6_batch_create_edges_links_every_edge', 'batch_create_edges with 1..2 EdgeInput items (endpoints and direction flags symbolic) on every bounded graph with at most one edge',
+           'Ok => one stored edge per item with the item\'s endpoints, ids distinct from every earlier id, the graph consistent, earlier edges untouched; Err (an endpoint missing) => nothing changed')
+batched = 0
+for es in [e for e in EDGE_SETS if len(e) <= 1]:
+    for dirs in itertools.product((True, False), repeat=len(es)):
+        for nitems in (1, 2):
+            st = ex.new_state()
+            G = Graph(st, NN, es, concrete=True)        # ids concrete as in S4 (symbolic ids cost minutes of solver time here)
+            G.add_lists(st, dirs)
+            ge = engine(st)
+            ge.fields[F('GraphEngine', 'edge_counter')] = Struct('AtomicU64', {'data': Cell(val=Int(U64(200), False))})
+            n0, e0, l0 = snapshot(st)
+            items, ends = [], []
+            for i in range(nitems):
+                f_, t_, d_ = z3.BitVec(f'bf{i}', 64), z3.BitVec(f'bt{i}', 64), z3.Bool(f'bd{i}')
+                st.assume(z3.And(z3.ULT(f_, U64(1 << 59)), z3.ULT(t_, U64(1 << 59))))
+                ends.append((f_, t_, d_))
+                items.append(Struct('EdgeInput', {F('EdgeInput', 'from'): Int(f_, False), F('EdgeInput', 'to'): Int(t_, False), F('EdgeInput', 'edge_type'): Str(z3.BitVec(f'btype{i}', 64)),
+                                                  F('EdgeInput', 'properties'): Map('std::string::String', 'PropertyValue', [], []), F('EdgeInput', 'directed'): d_}))
+            res = run(st, 'GraphEngine::batch_create_edges', [ref(ge), Seq('EdgeInput', items)])
+            ck.note_path_problem(res, f'batch_create_edges items={nitems} edges={es}')
+            for r in res:
+                wit = lambda m, G=G, es=es, dirs=dirs, ends=ends: {'graph_call': 'batch_create_edges', 'nodes': [mval(m, x) for x in G.nid], 'edges': [[a, b, mval(m, G.eid[j]), dirs[j]] for j, (a, b) in enumerate(es)],
+                                                                  'items': [[mval(m, f_), mval(m, t_), bool(mval(m, d_))] for (f_, t_, d_) in ends]}
+                if r.status == 'panic':
+                    ck.require(ex, 'S6_batch_create_edges_links_every_edge', r.pc, None, z3.BoolVal(False), wit, lambda m, w: 'batch-panic')
+                    continue
+                if r.status != 'return':
+                    continue
+                n1, e1, l1 = snapshot(r.st)
+                keep = z3.And([z3.Or([z3.And(x == eid, y == fr, z_ == to, d2 == dr) for (x, y, z_, d2) in e1] + [z3.BoolVal(False)]) for (eid, fr, to, dr) in e0] + [z3.BoolVal(True)])
+                if r.retval.variant == 'Ok':
+                    batched += 1
+                    cs = [z3.BoolVal(len(e1) == len(e0) + nitems), keep, consistent(n1, e1, l1)]
+                    new_edges = [e for e in e1 if not any(z3.is_true(z3.simplify(e[0] == o[0])) for o in e0)]
+                    for (f_, t_, d_) in ends:
+                        cs.append(z3.Or([z3.And(y == f_, z_ == t_, d2 == d_, z3.And([x != o[0] for o in e0] + [z3.BoolVal(True)])) for (x, y, z_, d2) in e1] + [z3.BoolVal(False)]))
+                    ck.require(ex, 'S6_batch_create_edges_links_every_edge', r.pc, None, z3.And(cs), wit, lambda m, w: 'batch-create')
+                else:
+                    ck.require(ex, 'S6_batch_create_edges_links_every_edge', r.pc, None, z3.And(z3.BoolVal(len(e1) == len(e0) and len(l1) == len(l0)), keep, consistent(n1, e1, l1)), wit, lambda m, w: 'refused-batch-changed-graph')
+if batched == 0:
+    ck.inconclusive.append('S6 vacuous: batch_create_edges never succeeded')
+
 # ------------------------------------------------------------------ S4: two threads, one inside the other's read-modify-write window
 # Schedules covered: thread B's create_edge runs entirely between the read and the write-back of the k-th adjacency-list
 # update of thread A's create_edge / delete_edge (k = 0..3).  Encoded as: B's operation from S0 to S1, then A's operation on S1
@@ -572,7 +616,7 @@ for v in ck.violations:
     rep = Replay.call({'op': 'graph_step', **v['witness']})
     v['native'] = rep
     v['replayed'] = rep.get('violates')
-ck.functions += ['GraphEngine::with_store', 'GraphEngine::with_store_and_config', 'GraphEngine::create_edge', 'GraphEngine::delete_edge', 'GraphEngine::delete_node', 'GraphEngine::add_edge_to_list', 'GraphEngine::remove_edge_from_list',
+ck.functions += ['GraphEngine::batch_create_edges', 'GraphEngine::create_edge_internal', 'GraphEngine::with_store', 'GraphEngine::with_store_and_config', 'GraphEngine::create_edge', 'GraphEngine::delete_edge', 'GraphEngine::delete_node', 'GraphEngine::add_edge_to_list', 'GraphEngine::remove_edge_from_list',
                  'GraphEngine::extract_edge_ids', 'GraphEngine::get_edge', 'GraphEngine::get_node', 'GraphEngine::get_edge_list', 'GraphEngine::node_exists']
 if __name__ == '__main__':
     ck.finish()
